@@ -56,6 +56,11 @@ pub assume_specification<T, E>[ Option::<Result<T, E>>::transpose ](o: Option<Re
     ensures o matches None ==> r == Ok::<Option<T>, E>(None),
             o matches Some(Ok(v)) ==> r == Ok::<Option<T>, E>(Some(v)),
             o matches Some(Err(e)) ==> r == Err::<Option<T>, E>(e);
+// A1: Option::filter keeps the value iff the predicate holds for it
+pub assume_specification<T, P: FnOnce(&T) -> bool>[ Option::<T>::filter ](o: Option<T>, p: P) -> (r: Option<T>)
+    requires o matches Some(v) ==> p.requires((&v,)),
+    ensures o matches None ==> r == None::<T>,
+            o matches Some(v) ==> (p.ensures((&v,), true) ==> r == Some(v)) && (p.ensures((&v,), false) ==> r == None::<T>) && (r == Some(v) || r == None::<T>);
 // A1: Rust's `==` on Vec compares contents (capacity is not observable)
 pub broadcast axiom fn vec_u8_ext(a: Vec<u8>, b: Vec<u8>) requires #[trigger] a@ == #[trigger] b@ ensures a == b;
 pub uninterp spec fn vec_of(s: Seq<u8>) -> Vec<u8>;
